@@ -327,8 +327,33 @@ struct Ledger : Monitor {
 			w->S.violate("C10", "echo", "answer id=" + std::to_string(id) + " carries question '" + m->qd[0].name.dotted() + "'/" + std::to_string(m->qd[0].type) +
 				     " but the query was '" + v[use].name + "'/" + std::to_string(v[use].type));
 		}
+		if (m && !quiet_echo && !relay && v[use].strict && v[use].plain_labels && found_exact >= 0) check_ns_a(d, *m, v[use]);
 		v.erase(v.begin() + use);
 		w->probes["c14.answers"]++;
+	}
+	// C10, last sentence: NS queries under the tunnel domain are answered with ns.<matched domain> (+ an A record for it when an
+	// IPv4 address is known), A queries for ns./www. with one address record
+	void check_ns_a(const Dgram &d, const DnsMsg &m, const Q &q)
+	{
+		size_t dl = 0;
+		if (!tunnel_domain_match(q.name, w->srv_domain, dl)) return;
+		std::string matched = q.name.substr(dl), data = q.name.substr(0, dl);
+		auto low = [](std::string x) { for (auto &c : x) c = (char)tolower((unsigned char)c); return x; };
+		if (q.type == QT_NS) {
+			w->probes["c10.ns_answers"]++;
+			if (m.an.size() != 1 || m.an[0].type != QT_NS || low(m.an[0].rname.dotted()) != "ns." + low(matched)) {
+				w->S.violate("C10", "ns.content", "NS query for '" + q.name + "' answered with " + (m.an.empty() ? std::string("no record") : "'" + m.an[0].rname.dotted() + "'") + " instead of ns." + matched);
+				return;
+			}
+			for (auto &r : m.ar) if (r.type == QT_A) {
+				if (low(r.name.dotted()) != "ns." + low(matched) || r.rdata.size() != 4) w->S.violate("C10", "ns.additional", "additional record of the NS answer is not an address record for ns." + matched);
+				w->probes["c10.ns_with_address"]++;
+			}
+			if (d.dst.fam == AF_INET && m.ar.empty() && !w->cfg.has("ns_ip")) w->S.violate("C10", "ns.no_address", "NS answer over IPv4 carries no address record for the name server");
+		} else if (q.type == QT_A && (low(data) == "ns." || low(data) == "www.")) {
+			w->probes["c10.a_answers"]++;
+			if (m.an.size() != 1 || m.an[0].type != QT_A || m.an[0].rdata.size() != 4) w->S.violate("C10", "a.content", "A query for '" + q.name + "' was not answered with exactly one 4-byte address record");
+		}
 	}
 	void on_block(Task &t) override
 	{
